@@ -134,6 +134,23 @@ Theorem c13_overlap_keeps_earliest_start (now : Z) (old new : alert) :
   a_starts (put_opt now (Some old) new) = Z.min (a_starts old) (a_starts new).
 Proof. exact (put_opt_earliest_start now old new). Qed.
 
+(* the same over histories: after any API history, what a POST leaves for the label set of its last valid alert [p]
+   starts no later than [p]; it starts at the minimum when [p] starts before the end of what the label set held,
+   and is [p] itself (new start, new end) when [p] starts at or after that end *)
+Theorem c13_overlap_keeps_earliest_start_hist (E : env) (now : Z) (s : store) (b1 : list palert) (p : palert) (b2 : list palert) :
+  0 <= e_rt E -> reachable E now s -> valid_p (e_vname E) (e_vvalue E) now (e_rt E) p = true ->
+  (forall q, In q b2 -> valid_p (e_vname E) (e_vvalue E) now (e_rt E) q = true ->
+             a_labels (prep now (e_rt E) q) <> a_labels (prep now (e_rt E) p)) ->
+  exists cur r,
+    fst (post (e_vname E) (e_vvalue E) now (e_rt E) s (b1 ++ p :: b2)) !! a_labels (prep now (e_rt E) p) = Some r /\
+    r = put_opt now cur (prep now (e_rt E) p) /\
+    (cur = None -> s !! a_labels (prep now (e_rt E) p) = None /\ r = prep now (e_rt E) p) /\
+    a_starts r <= a_starts (prep now (e_rt E) p) /\
+    (forall old, cur = Some old ->
+       (a_starts (prep now (e_rt E) p) < a_ends old -> a_starts r = Z.min (a_starts old) (a_starts (prep now (e_rt E) p))) /\
+       (a_ends old <= a_starts (prep now (e_rt E) p) -> r = prep now (e_rt E) p)).
+Proof. intros Hrt. exact (reachable_start_rule E Hrt now s b1 p b2). Qed.
+
 (* the stored start is never later than the submitted one *)
 Theorem c13_start_never_later_than_submitted (now : Z) (cur : option alert) (a : alert) :
   a_starts (put_opt now cur a) <= a_starts a.
@@ -293,6 +310,7 @@ Proof. vm_compute. repeat split; reflexivity. Qed.
 Print Assumptions c13_reachable_invariant.
 Print Assumptions c13_valid_stored_despite_invalid_hist.
 Print Assumptions c13_end_default_and_pushed.
+Print Assumptions c13_overlap_keeps_earliest_start_hist.
 Print Assumptions c13_past_end_resolves_now.
 Print Assumptions c13_get_exact.
 Print Assumptions c13_only_resolved_alerts_collected.
